@@ -358,6 +358,13 @@ class FIXNewOrderSingle:
                 None: True,
             }
             status_transitions = {
+                # an order that was never sent: as for execution reports, only
+                #  PENDING_NEW or REJECTED can follow
+                FOrdStatus.CREATED: {
+                    FOrdStatus.PENDING_NEW: True,
+                    FOrdStatus.REJECTED: True,
+                    None: FIXError,
+                },
                 FOrdStatus.FILLED: finished,
                 FOrdStatus.CANCELED: finished,
                 FOrdStatus.REJECTED: finished,
